@@ -59,6 +59,8 @@ pub struct Device {
 use DisabledOptions::*;
 
 use crate::instruction::operation::Operation;
+use crate::instruction::register::Reg16;
+use crate::instruction::{IndexOps, InstructionOps};
 
 impl Device {
     pub fn new(flash_size: u32) -> Self {
@@ -108,6 +110,30 @@ impl Device {
                 } else {
                     false
                 }
+            }
+            _ => true,
+        }
+    }
+
+    /// Operand dependent restrictions: X / Y pointer forms and LPM / ELPM Rd, Z(+)
+    pub fn check_operands(&self, op: &Operation, op_args: &[InstructionOps]) -> bool {
+        match op {
+            Operation::Lpm => op_args.is_empty() || self.allow(NoLpmX),
+            Operation::Elpm => op_args.is_empty() || self.allow(NoElpmX),
+            Operation::Ld | Operation::St | Operation::Ldd | Operation::Std => {
+                op_args.iter().all(|arg| match arg {
+                    InstructionOps::Index(
+                        IndexOps::None(index)
+                        | IndexOps::PostIncrement(index)
+                        | IndexOps::PostIncrementE(index, _)
+                        | IndexOps::PreDecrement(index),
+                    ) => match index {
+                        Reg16::X => self.allow(NoXreg),
+                        Reg16::Y => self.allow(NoYreg),
+                        Reg16::Z => true,
+                    },
+                    _ => true,
+                })
             }
             _ => true,
         }
